@@ -598,6 +598,32 @@ func c05ErrPosGen(c *Ctx, idx int, local map[string]int64) {
 	gc := genCase(c.Seed, "c05.errgen.base", idx, -1, -1, gen.Opts{MaxDepth: 2, Hostile: idx%4 == 0}, "random")
 	toks := append([]gen.Tok(nil), gc.G.B.Toks...)
 	ti := rg.Intn(len(toks))
+	if idx%4 == 3 {
+		// truncated statement, optionally ending in a character the parser's
+		// raw look-ahead inspects: the error (usually "found EOF") must point
+		// at the end of the text
+		toks = toks[:ti+1]
+		tail := rg.Pick("", "", "/", "-", "/*", "--", "$", ".", " /", " -")
+		text, _ := gen.Render(toks, gen.Layout{Rg: rg})
+		text += tail
+		var err error
+		if p, pv, stk := mon.Try(func() { _, err = influxql.ParseQuery(text) }); p {
+			r.Violation("panic-in-parse", map[string]interface{}{"sub": "errgen", "idx": idx, "input": text, "why": fmt.Sprint(pv), "stack": stk})
+			return
+		}
+		r.Eval(1)
+		r.DistinctStr("trunc|" + text)
+		if pe, ok := err.(*influxql.ParseError); ok && pe.Found == "EOF" {
+			f := foldText(text)
+			end := posAt(f, len(f))
+			if pe.Pos.Line != end.Line || (pe.Pos.Char != end.Char && pe.Pos.Char != end.Char+1) {
+				r.Violation("error-position", map[string]interface{}{"sub": "errgen", "idx": idx, "input": text, "why": fmt.Sprintf("error %q: EOF reported at %v, the text ends at %v", err.Error(), pe.Pos, end)})
+				return
+			}
+			local["errgen.eof-position-checked"]++
+		}
+		return
+	}
 	bad := rg.Pick("?", "#", "@", "~", "`")
 	toks[ti].Text = bad
 	if ti+1 < len(toks) && toks[ti+1].Gap == gen.GapNone {
